@@ -578,6 +578,7 @@ class Frame:
     made = []
 
     def __init__(self, data=None, *a, **k):
+        index = k.pop("index", None)            # (only the default positional index is modelled)
         if a or k or not isinstance(data, dict):
             raise StubLimit("DataFrame(%r) not modelled" % (type(data).__name__,))
         self.cols = {}
@@ -586,6 +587,8 @@ class Frame:
         Frame.made.append(self)
         for name, v in data.items():
             self[name] = v
+        if index is not None and self.n is not None and len(index) != self.n:
+            raise ValueError("Length of values (%d) does not match length of index (%d)" % (self.n, len(index)))
 
     def __setitem__(self, name, value):
         if any(name == k for k, _ in self.extra):
@@ -639,6 +642,21 @@ class Frame:
             out[k] = v
         return out
 
+    def update(self, other, **k):
+        """pandas.DataFrame.update: overwrite in place with the NON-NA values of `other` (same labels, same rows); NA
+        entries of `other` (None / NaN) leave the old value standing"""
+        if k or not isinstance(other, Frame) or self.extra or other.extra:
+            raise StubLimit("DataFrame.update(%s, %r) not modelled" % (type(other).__name__, sorted(k)))
+        for label, new in other.cols.items():
+            if label not in self.cols:
+                continue
+            old = self.cols[label]
+            if len(new) != len(old):
+                raise StubLimit("update with another index not modelled")
+            merged = [old[i] if (new[i] is None or (isinstance(new[i], float) and new[i] != new[i])) else new[i]
+                      for i in range(len(old))]
+            self.cols[label] = merged
+
     def copy(self, deep=True):
         saved, self.extra = self.extra, []
         try:
@@ -681,6 +699,14 @@ class _FakePandas:
     DataFrame = Frame
     Series = Series
     concat = staticmethod(_concat)
+
+    @staticmethod
+    def to_numeric(arg, **k):
+        # a pure function of a concrete numpy array: the REAL pandas answers (no frame involved)
+        if not isinstance(arg, np.ndarray):
+            raise StubLimit("to_numeric(%s) not modelled" % type(arg).__name__)
+        import pandas as _real_pandas
+        return _real_pandas.to_numeric(arg, **k)
 
     def __getattr__(self, n):
         raise StubLimit("pandas.%s not modelled" % n)
